@@ -627,6 +627,63 @@ fn enc_random(cx: &mut Ctx) {
     }
 }
 
+fn deep_alphabet(name: &str) -> Vec<u8> {
+    match name {
+        "ISO-2022-JP" => vec![0x1B, 0x24, 0x28, 0x42, 0x4A, 0x41, 0x0E],
+        "gb18030" | "GBK" => vec![0x81, 0x30, 0x84, 0x39, 0x41, 0xFE, 0x80],
+        "EUC-JP" => vec![0x8E, 0x8F, 0xA1, 0x41, 0xFF, 0xB0],
+        "Big5" => vec![0x87, 0x40, 0xA4, 0x41, 0xFF, 0x88, 0x62],
+        "UTF-8" => vec![0x41, 0xC2, 0xE0, 0xA0, 0xF0, 0x90, 0x80, 0xFF],
+        "UTF-16LE" | "UTF-16BE" => vec![0x00, 0xD8, 0xDC, 0x41, 0xFF],
+        "Shift_JIS" => vec![0x81, 0x40, 0x80, 0xA1, 0xFC, 0x41],
+        "EUC-KR" => vec![0x81, 0x41, 0xA1, 0xFF, 0xC7],
+        "replacement" => vec![0x41, 0x80],
+        "x-user-defined" => vec![0x41, 0x80, 0xFF],
+        _ => vec![0x41, 0x80, 0x98, 0xFF],
+    }
+}
+
+/// deep bounded-exhaustive profile: every stream up to length 5 (thorough: 6) over a small per-encoding alphabet,
+/// whole and cut in two at every position, at the documented minimum capacities (and minimum + 1), with and
+/// without replacement.  Reaches multi-error interactions inside one call that short class-alphabet streams miss.
+fn dec_deep(cx: &mut Ctx) {
+    let names: Vec<&str> = CORE.iter().cloned().chain(["windows-1252"].iter().cloned()).filter(|n| cx.wants(n)).collect();
+    for name in names.iter() {
+        let e = enc(name);
+        let alpha = deep_alphabet(name);
+        let maxlen = if cx.thorough { 6 } else { 5 };
+        let mut streams: Vec<Vec<u8>> = Vec::new();
+        for len in 1..=maxlen {
+            for_all_strings(&alpha, len, &mut |s| streams.push(s.to_vec()));
+        }
+        let mut k = 0usize;
+        for s in streams.iter() {
+            k += 1;
+            let n = s.len();
+            let combos: [(Sink, bool, usize); 4] = [(Sink::Utf8, true, 0), (Sink::Utf16, true, 0), (Sink::Utf8, false, 0), (Sink::Utf8, true, 1)];
+            // whole stream in every combination
+            for (ci, (sink, repl, extra)) in combos.iter().enumerate() {
+                if !cx.thorough && n >= 5 && (k + ci + cx.seed as usize) % 2 != 0 {
+                    continue;
+                }
+                let cfg = hc(e, Mode::Off, *sink, *repl);
+                let c = sink.min_cap() + extra;
+                let mut capf = |_i: usize| CapSpec::Fixed(c);
+                run_chunked(&mut cx.sh, &cfg, s, &[], &mut capf, k % 2 == 0, false);
+            }
+            // one cut at a rotating position
+            if n >= 2 {
+                let cut = 1 + (k % (n - 1));
+                let (sink, repl, extra) = combos[k % 4];
+                let cfg = hc(e, Mode::Off, sink, repl);
+                let c = sink.min_cap() + extra;
+                let mut capf = |_i: usize| CapSpec::Fixed(c);
+                run_chunked(&mut cx.sh, &cfg, s, &[cut], &mut capf, k % 3 == 0, false);
+            }
+        }
+    }
+}
+
 fn main() {
     std::panic::set_hook(Box::new(|_| {}));
     let args: Vec<String> = std::env::args().collect();
@@ -640,12 +697,22 @@ fn main() {
     let seed = arg_usize(&args, "--seed", 1) as u64;
     let thorough = arg_val(&args, "--tier").map(|t| t == "thorough").unwrap_or(false);
     let only = arg_val(&args, "--only");
+    let _ = OVERRIDES.set(Overrides {
+        sinks: arg_val(&args, "--sinks").map(|v| v.split(',').map(|x| x.to_string()).collect()),
+        repl: arg_val(&args, "--repl").map(|v| v == "on"),
+        cap: arg_val(&args, "--cap"),
+        twins: args.iter().any(|a| a == "--twins"),
+        latin1: args.iter().any(|a| a == "--latin1"),
+        modes: arg_val(&args, "--modes").map(|v| v.split(',').map(|x| x.to_string()).collect()),
+        thin: arg_usize(&args, "--thin", 0),
+    });
     let mut cx = Ctx { sh: Shards::new(&out, &profile, shards), rng: Rng::new(seed), thorough, seed, only };
     match profile.as_str() {
         "dec-whole" => dec_whole(&mut cx),
         "dec-cutsets" => dec_cutsets(&mut cx),
         "dec-random" => dec_random(&mut cx),
         "dec-bom" => dec_bom(&mut cx),
+        "dec-deep" => dec_deep(&mut cx),
         "enc-sweep" => enc_sweep(&mut cx),
         "enc-pairs" => enc_pairs(&mut cx),
         "enc-cutsets" => enc_cutsets(&mut cx),
